@@ -22,20 +22,9 @@ SHARD_TIMEOUT = {"quick": 900, "thorough": 3600}
 
 # constructs that only pycparser's own grammar accepts (GNU statement expressions in every position where the parser
 # takes them, offsetof member designators, __int128, _Pragma operator ...): "every source text that parses" includes them
-_SE = "({ int q = 1; q; })"
-EXTRAS = [
-    "int f(int a, int *p) { return %s; }" % _SE,
-    "int f(int a, int *p) { if (%s) a = 1; return a; }" % _SE,
-    "int f(int a, int *p) { while (%s) a = 1; do a = 2; while (%s); switch (%s) { case 1: ; } return a; }" % (_SE, _SE, _SE),
-    "int f(int a, int *p) { for (%s; %s; %s) ; return p[%s]; }" % (_SE, _SE, _SE, _SE),
-    "int f(int a, int *p) { a = %s; g(%s, %s); %s; return (%s, %s); }" % (_SE, _SE, _SE, _SE, _SE, _SE),
-    "int f(int a, int *p) { int b = %s; int c[] = { %s, [1] = %s }; struct s v = { .m = %s }; return p[%s][%s]; }" % ((_SE,) * 6),
-    "int f(int a, int *p) { switch (a) { case 1: return %s; default: a = %s; } a += %s; a = %s, %s; return a; }" % ((_SE,) * 5),
-    "int f(int a) { return ({ ({ a; }); }); }",
-    "int f(int a) { a = ({ if (a) a = 1; else a = 2; a; }); return ({ int r[2] = { 1, 2 }; r[0]; }); }",
-    "int x = offsetof(struct s, a.b[1].c); int y = offsetof(struct s, m[2 + 3]);",
-    "__int128 big; unsigned __int128 ubig = 1; void f(void) { _Pragma(\"omp p\") ; }",
-]
+from ..gen import extras  # noqa: E402
+
+EXTRAS = [t for _, t in extras.TEXTS]
 # K12 (a declared name becomes visible only at the end of the whole declaration) also breaks the round trip, because the
 # generator prints one declaration per declarator: (witness, neutralised twin)
 KF_WITNESSES = [
@@ -122,8 +111,13 @@ def gen_recipes(rnd, n):
             out.append({"k": "rexprs", "seed": sd, "count": 20, "depth": rnd.choice([2, 3, 4, 6]),
                         "render": rnd.choice(["min", "rand", "full"]),
                         "ctx": rnd.choice(list(cases.EXPR_CONTEXTS))})
-        elif r < 0.85:
+        elif r < 0.82:
             out.append({"k": "rdecls", "seed": sd, "count": 8, "render": "min"})
+        elif r < 0.88:
+            ctx = rnd.choice(cases.DECL_CONTEXTS + cases.TN_CONTEXTS)
+            nv = 16 if ctx == "param" else 8
+            out.append({"k": "derivs", "ctx": ctx, "seqs": [[rnd.randrange(nv) for _ in range(rnd.randrange(0, 5))] for _ in range(12)],
+                        "seed": sd, "style": "single"})
         else:
             out.append({"k": "rstmts", "seed": sd, "count": 2, "depth": rnd.choice([2, 3, 5])})
     return out
